@@ -112,6 +112,7 @@ class CenteredDifferences(BaseGradientApproximator):
         f_0: RealArray,
         f_m: RealArray,
         numerical_error: float = EPSILON,
+        step: float | None = None,
     ) -> tuple[RealArray | float, RealArray]:
         r"""Compute the optimal step of a function.
 
@@ -130,15 +131,20 @@ class CenteredDifferences(BaseGradientApproximator):
                 By default, Machine epsilon (appx 1e-16),
                 but can be higher.
                 when the calculation of :math:`f` requires a numerical resolution.
+            step: The step used to compute ``f_p`` and ``f_m``.
+                If ``None``, use the default differentiation step.
 
         Returns:
             The errors.
             The optimal steps.
         """
+        if step is None:
+            step = self.step
+
         n_out = f_p.size
         if n_out == 1:
             t_e, c_e, opt_step = compute_best_step(
-                f_p, f_0, f_m, self.step, epsilon_mach=numerical_error
+                f_p, f_0, f_m, step, epsilon_mach=numerical_error
             )
             return 0.0 if t_e is None else t_e + c_e, opt_step
 
@@ -146,7 +152,7 @@ class CenteredDifferences(BaseGradientApproximator):
         opt_steps = zeros(n_out)
         for i in range(n_out):
             t_e, c_e, opt_steps[i] = compute_best_step(
-                f_p[i], f_0[i], f_m[i], self.step, epsilon_mach=numerical_error
+                f_p[i], f_0[i], f_m[i], step, epsilon_mach=numerical_error
             )
             errors[i] = 0.0 if t_e is None else t_e + c_e
 
@@ -197,6 +203,7 @@ class CenteredDifferences(BaseGradientApproximator):
                     f_0,
                     outputs[n_dim + i + 1],
                     numerical_error=numerical_error,
+                    step=opt_steps[i],
                 )
                 errors[i] = errs
                 opt_steps[i] = opt_step
@@ -209,6 +216,7 @@ class CenteredDifferences(BaseGradientApproximator):
                     f_0,
                     compute_output(x_m_arr[:, i], **kwargs),
                     numerical_error=numerical_error,
+                    step=opt_steps[i],
                 )
 
         self.step = opt_steps
